@@ -652,7 +652,9 @@ fn gen_header(rng: &mut Rng, hist: &mut BTreeMap<String, u64>) -> (String, Vec<S
 }
 
 const STRIP: &[&str] = &["--merge-extern-blocks", "--sort-semantically", "--no-rustfmt-bindings"];
-const STRIP_WITH_VALUE: &[&str] = &["--formatter", "--rustfmt-configuration-file"];
+// `--raw-line` text is written by `Bindings::write` in front of the module; it is not part of the token
+// stream the passes see (module raw lines are, and stay)
+const STRIP_WITH_VALUE: &[&str] = &["--formatter", "--rustfmt-configuration-file", "--raw-line"];
 const SKIP_IF: &[&str] = &["--wrap-static-fns", "--depfile", "--emit-ir", "--emit-clang-ast", "--dump-preprocessed-input", "--emit-ir-graphviz"];
 
 fn clean_flags(flags: &[String]) -> Option<Vec<String>> {
@@ -724,7 +726,7 @@ fn run_whole_program(args: &Args, st: &mut Stats) {
             None => *st.skipped.entry("repo-header-with-side-effect-flags".into()).or_insert(0) += 1,
         }
     }
-    let ngen = if args.thorough() { 900 } else { 90 };
+    let ngen = if args.thorough() { 600 } else { 90 };
     for i in 0..ngen {
         let (text, flags) = gen_header(&mut rng, &mut st.hist);
         let p = scratch.path(&format!("gen{i}.hpp"));
